@@ -146,7 +146,7 @@ CHECK = {
         "impl_bin": "impl_c27", "extract": "Extract/ExC27.v", "driver": "run_c27.ml",
         "gen": gen, "nontrivial": nontrivial, "classify": classify,
         "exhaustive": {"quick": False, "thorough": False},
-        "rule": ("seeded request pairs through Server::handle_message on a fresh Server with all rates 1, window 1: IPv4 prefix "
+        "rule": ("seeded request pairs through Server::handle_message on a fresh Server with all rates 1, window 1: [+ answers synthesized from a wildcard in every way (A, ANY, no data, CNAME); names made of the same octets split into labels differently; ANY answers from a big wildcard truncated over UDP] IPv4 prefix "
                  "lengths 0..32 and IPv6 0..64 (boundaries 0/1/23/24/25/31/32, 0/1/48/56/63/64, rejected 33/65/128/255), table sizes "
                  "1/2/3/65537, slip 0/1/2; second source equal / host bits flipped / first host bit / last prefix bit / inside the "
                  "prefix / IPv4-mapped, IPv4-compatible and almost-mapped IPv6 forms / unrelated; query pairs: same QNAME in another "
